@@ -30,10 +30,13 @@ typedef struct {
 	int api;            /* 0 of_decode_with_new_symbol sequence, 1 one of_set_available_symbols */
 	int finish;         /* call of_finish_decoding at the end */
 	int cbmode;         /* 0 none, 1 buffer, 2 NULL, 3 alternating, 4 NULL for odd ESIs, 5 buffer + repair callback registered */
-	int roles;          /* 0 decoder, 1 encoder+decoder, 2 encoder+decoder that first builds one repair symbol */
+	int roles;          /* 0 decoder, 1 encoder+decoder, 2 encoder+decoder that first builds one repair symbol,
+	                     * 3 encoder+decoder that, once decoding is complete, rebuilds repair symbols from the decoded block (a relay) */
 	int stop;           /* 0 full history; 1 release right after create; 2 release right after set_fec_parameters */
 	uint32_t nsub; const uint32_t *sub;   /* ESIs in submission order (may repeat); for api 1 the set */
 	int snap_every;     /* 1 = observe after every call */
+	int reenter;        /* the decoded-source callback runs a complete decoding session of another block before it returns */
+	int dupcopy;        /* a repeated ESI is submitted from a different buffer holding the same bytes (a network duplicate) */
 } hist_t;
 
 enum { MON_C01 = 1, MON_C02 = 2, MON_C03 = 4, MON_C04 = 8, MON_C07 = 16, MON_C08 = 32, MON_C10 = 64, MON_C11 = 128, MON_C16 = 256 };
